@@ -247,14 +247,19 @@ def r_getvar(model, rep):
     rets = [ev for ev in cx.events if ev.kind == "return"]
     muts = [ev for ev in cx.events if ev.kind == "call" and ev.value[1][0] == "attr" and ev.value[1][1] == result_local
             and ev.value[1][2] in ("append", "extend", "insert")]
-    ok = bool(sorts) and bool(rets)
+    KEY = ("keyfn", "attr", "uid")
+    by_sorted = lambda v: v[0] == "call" and v[1] == ("global", "sorted") and v[2] == (result_local,) \
+        and dict(v[3]).get("key") == KEY and dict(v[3]).get("reverse") in (None, ("const", False))
+    ok = bool(rets)
     msg = ""
-    if not sorts:
-        msg = "result list is never sorted unconditionally"
+    if rets and all(by_sorted(r.value) for r in rets):
+        pass            # return sorted(result, key=uid) on every exit
+    elif not sorts:
+        ok, msg = False, "result list is never sorted unconditionally"
     else:
         s = sorts[-1]
         key = dict(s.value[3]).get("key")
-        if key != ("keyfn", "attr", "uid"):
+        if key != KEY:
             ok, msg = False, "result is not sorted by uid (key=%s)" % (T.show(key) if key else None)
         if dict(s.value[3]).get("reverse") not in (None, ("const", False)):
             ok, msg = False, "result is sorted in reverse"
